@@ -23,6 +23,7 @@ import (
 	"encoding/json"
 	"errors"
 	"fmt"
+	"hash/fnv"
 	"io"
 	"os"
 	"regexp"
@@ -118,23 +119,41 @@ func c19sStartServer(httpVersion conformancev1.HTTPVersion, limit uint32) (*c19s
 }
 
 type c19sClient struct {
-	in     *io.PipeWriter
-	out    *io.PipeReader
-	cancel context.CancelFunc
-	done   chan error
-	stderr *c19sBuf
-	seq    int
+	in        *io.PipeWriter
+	responses chan *conformancev1.ClientCompatResponse
+	readErr   chan error
+	done      chan error
+	stderr    *c19sBuf
+	seq       int
+	// goroutines of RPCs that were found deadlocked earlier (they stay around
+	// for ever: not even cancelling the client's context frees them)
+	stale     map[string]bool
+	deadlocks int
 }
 
-func c19sStartClient(seq int) *c19sClient {
+func c19sStartClient() *c19sClient {
 	inR, inW := io.Pipe()
 	outR, outW := io.Pipe()
-	ctx, cancel := context.WithCancel(context.Background())
-	cli := &c19sClient{in: inW, out: outR, cancel: cancel, done: make(chan error, 1), stderr: &c19sBuf{}, seq: seq}
+	cli := &c19sClient{
+		in: inW, responses: make(chan *conformancev1.ClientCompatResponse, 16), readErr: make(chan error, 1),
+		done: make(chan error, 1), stderr: &c19sBuf{}, stale: map[string]bool{},
+	}
 	go func() {
-		err := RunInReferenceMode(ctx, []string{"referenceclient"}, inR, outW, cli.stderr, nil)
+		// -p: deadlocked RPCs keep their slot of the client's semaphore for ever
+		err := RunInReferenceMode(context.Background(), []string{"referenceclient", "-p", "4096"}, inR, outW, cli.stderr, nil)
 		_ = outW.CloseWithError(fmt.Errorf("client exited: %v", err)) //nolint:errorlint
 		cli.done <- err
+	}()
+	go func() {
+		for {
+			resp := &conformancev1.ClientCompatResponse{}
+			// (this timeout is never meant to fire; call() has its own guard)
+			if err := internal.ReadDelimitedMessage(outR, resp, "reference client", 24*time.Hour, 256<<20); err != nil {
+				cli.readErr <- err
+				return
+			}
+			cli.responses <- resp
+		}
 	}()
 	return cli
 }
@@ -146,109 +165,86 @@ type c19sDeadlock struct{ what string }
 
 func (d *c19sDeadlock) Error() string { return d.what }
 
-// c19sDeadlockSignature inspects all goroutines of the process (one RPC is in
-// flight at a time) for a wait-for cycle between the two peers. This is a
-// structural test, not a timing one: the client goroutine sits inside
-// Receive (draining the response body, so it cannot send or close its request
-// side) and the server handler sits inside Receive of the same RPC method (so
-// it will not end the response). Neither can make progress.
 var (
 	c19sClientFrame = regexp.MustCompile(`referenceclient\.\(\*invoker\)\.(\w+)\(`)          //nolint:gochecknoglobals
 	c19sServerFrame = regexp.MustCompile(`referenceserver\.\(\*conformanceServer\)\.(\w+)\(`) //nolint:gochecknoglobals
+	c19sGoroutineID = regexp.MustCompile(`^goroutine (\d+) \[`)                                 //nolint:gochecknoglobals
 )
 
-func c19sDeadlockSignature() string {
-	buf := make([]byte, 16<<20)
+// deadlockSignature inspects all goroutines of the process (one RPC is in
+// flight at a time) for a wait-for cycle between the two peers. This is a
+// structural test, not a timing one: the client's RPC goroutine sits inside
+// Receive draining the response body (so it can neither send nor close its
+// request side) and the server's handler sits inside Receive of the same RPC
+// waiting for the next request (so it will not end the response). Neither can
+// ever make progress, however long one waits.
+func (c *c19sClient) deadlockSignature() string {
+	buf := make([]byte, 64<<20)
 	buf = buf[:runtime.Stack(buf, true)]
-	var clientSide, serverSide string
+	var clientSide, serverSide, clientID, serverID string
 	for _, block := range strings.Split(string(buf), "\n\n") {
+		idMatch := c19sGoroutineID.FindStringSubmatch(block)
+		if idMatch == nil || c.stale[idMatch[1]] {
+			continue
+		}
 		if m := c19sClientFrame.FindStringSubmatch(block); m != nil &&
 			strings.Contains(block, "connect.discard(") && strings.Contains(block, ").Receive(") {
 			clientSide = "client RPC goroutine: connect.discard <- Receive <- referenceclient.(*invoker)." + m[1]
+			clientID = idMatch[1]
 		}
 		if m := c19sServerFrame.FindStringSubmatch(block); m != nil &&
 			strings.Contains(block, "envelopeReader).Read(") && strings.Contains(block, ").Receive(") {
 			serverSide = "server handler goroutine: envelopeReader.Read <- Receive <- referenceserver.(*conformanceServer)." + m[1]
+			serverID = idMatch[1]
 		}
 	}
 	if clientSide != "" && serverSide != "" {
+		c.stale[clientID], c.stale[serverID] = true, true
 		return clientSide + "; " + serverSide
 	}
 	return ""
 }
 
-func c19sServerHandlerBusy() bool {
-	buf := make([]byte, 16<<20)
-	buf = buf[:runtime.Stack(buf, true)]
-	return strings.Contains(string(buf), "referenceserver.(*conformanceServer).")
-}
-
 // call performs one RPC through the real client: request in, response out.
 func (c *c19sClient) call(req *conformancev1.ClientCompatRequest) (*conformancev1.ClientCompatResponse, error) {
 	c.seq++
-	// fixed width: the name travels in a request header that the server echoes
-	// in its response, and response sizes must not depend on the sequence number
-	req.TestName = fmt.Sprintf("c19/%08d", c.seq)
+	// The name travels in a request header that the server echoes in its
+	// response. It is a function of the case only (fixed width), so that every
+	// run of a case puts exactly the same bytes on the wire: response sizes -
+	// uncompressed and compressed - are then reproducible.
 	req.RequestHeaders = append(req.RequestHeaders,
 		&conformancev1.Header{Name: "x-test-case-name", Value: []string{req.TestName}})
 	if err := internal.WriteDelimitedMessage(c.in, req); err != nil {
 		return nil, fmt.Errorf("writing request to client: %w", err)
 	}
-	type result struct {
-		resp *conformancev1.ClientCompatResponse
-		err  error
-	}
-	ch := make(chan result, 1)
-	go func() {
-		resp := &conformancev1.ClientCompatResponse{}
-		// the timeout only guards the harness against a hang; it decides nothing
-		err := internal.ReadDelimitedMessage(c.out, resp, "reference client", c19sCallTimeout(), 256<<20)
-		ch <- result{resp, err}
-	}()
-	started := time.Now()
-	ticker := time.NewTicker(250 * time.Millisecond)
-	defer ticker.Stop()
+	// the hard timeout only guards the harness against an unexplained hang
+	// (harness error); it decides nothing about the property
+	hard := time.After(c19sCallTimeout())
+	first := time.After(300 * time.Millisecond)
+	var ticks <-chan time.Time
 	for {
 		select {
-		case res := <-ch:
-			if res.err != nil {
-				if os.Getenv("C19_DEBUG_DUMP") != "" {
-					buf := make([]byte, 1<<22)
-					buf = buf[:runtime.Stack(buf, true)]
-					fmt.Printf("==== goroutines at timeout ====\n%s\n", buf)
-				}
-				return nil, res.err
+		case resp := <-c.responses:
+			if resp.TestName != req.TestName {
+				return nil, fmt.Errorf("client answered %q, expected %q", resp.TestName, req.TestName)
 			}
-			if res.resp.TestName != req.TestName {
-				return nil, fmt.Errorf("client answered %q, expected %q", res.resp.TestName, req.TestName)
+			return resp, nil
+		case err := <-c.readErr:
+			return nil, err
+		case <-hard:
+			if os.Getenv("C19_DEBUG_DUMP") != "" {
+				buf := make([]byte, 1<<22)
+				buf = buf[:runtime.Stack(buf, true)]
+				fmt.Printf("==== goroutines at timeout ====\n%s\n", buf)
 			}
-			return res.resp, nil
-		case <-ticker.C:
-			if time.Since(started) < time.Second {
-				continue
-			}
-			if sig := c19sDeadlockSignature(); sig != "" {
-				// give up on this client instance: abort its RPCs and drain it
-				c.cancel()
-				_ = c.in.Close()
-				<-ch
-				go func() { _, _ = io.Copy(io.Discard, c.out) }()
-				select {
-				case <-c.done:
-				case <-time.After(30 * time.Second):
-					if os.Getenv("C19_DEBUG_DUMP") != "" {
-						buf := make([]byte, 1<<22)
-						buf = buf[:runtime.Stack(buf, true)]
-						fmt.Printf("==== goroutines after cancellation ====\n%s\n", buf)
-					}
-					return nil, fmt.Errorf("client did not stop after cancellation (deadlock: %s)", sig)
-				}
-				for i := 0; c19sServerHandlerBusy(); i++ {
-					if i > 300 {
-						return nil, fmt.Errorf("server handler still running after the client went away (deadlock: %s)", sig)
-					}
-					time.Sleep(100 * time.Millisecond)
-				}
+			return nil, errors.New("timed out waiting for result from reference client")
+		case <-first:
+			ticker := time.NewTicker(200 * time.Millisecond)
+			defer ticker.Stop()
+			ticks = ticker.C
+		case <-ticks:
+			if sig := c.deadlockSignature(); sig != "" {
+				c.deadlocks++
 				return nil, &c19sDeadlock{what: sig}
 			}
 		}
@@ -293,9 +289,11 @@ func (e *c19sEnv) shutdown() {
 	for _, srv := range e.servers {
 		srv.cancel()
 	}
+	if e.client != nil && e.client.deadlocks > 0 {
+		return // deadlocked RPCs never end; the process exits instead
+	}
 	if e.client != nil {
 		_ = e.client.in.Close()
-		go func() { _, _ = io.Copy(io.Discard, e.client.out) }()
 		select {
 		case <-e.client.done:
 		case <-time.After(10 * time.Second):
@@ -452,7 +450,10 @@ var c19sCompressions = map[string]conformancev1.Compression{ //nolint:gochecknog
 }
 
 func c19sCompatRequest(tc c19sCase, srv *c19sServer, msgs []proto.Message, clientLimit uint32) *conformancev1.ClientCompatRequest {
+	nameHash := fnv.New32a()
+	_, _ = nameHash.Write([]byte(tc.String()))
 	req := &conformancev1.ClientCompatRequest{
+		TestName:            fmt.Sprintf("c19/%08x", nameHash.Sum32()),
 		Host:                srv.host,
 		Port:                srv.port,
 		Compression:         c19sCompressions[tc.Compression],
@@ -533,7 +534,6 @@ func c19sObserve(env *c19sEnv, tc c19sCase, req *conformancev1.ClientCompatReque
 	if err != nil {
 		var deadlock *c19sDeadlock
 		if errors.As(err, &deadlock) {
-			env.client = c19sStartClient(env.client.seq)
 			return c19sObservation{Class: "deadlock", Message: deadlock.what}, nil
 		}
 		return c19sObservation{}, err
@@ -719,21 +719,29 @@ func c19sClientSide(env *c19sEnv, tc c19sCase) (c19sVerdict, error) {
 	if err != nil {
 		return c19sVerdict{}, err
 	}
-	data := c19sPadding(tc.Pad, tc.Limit)
+	// pad=zeros: the server is asked for tc.Limit zero bytes of response data
+	// (highly compressible response). pad=noise: the request carries tc.Limit
+	// incompressible bytes, which the server echoes exactly once in its first
+	// response (the response data itself would appear twice - in the payload
+	// and in the echoed response definition - and thus always compress).
+	data, reqData := c19sPadding("zeros", tc.Limit), []byte("a")
+	if tc.Pad == "noise" {
+		data, reqData = []byte("ok"), c19sPadding("noise", tc.Limit)
+	}
 	var msgs []proto.Message
 	switch tc.Shape {
 	case "unary", "idempotent-unary":
-		msgs = []proto.Message{c19sRequest(tc.Shape, true, [][]byte{data}, nil, "")}
+		msgs = []proto.Message{c19sRequest(tc.Shape, true, [][]byte{data}, reqData, "")}
 	case "client-stream":
 		msgs = []proto.Message{
-			c19sRequest(tc.Shape, true, [][]byte{data}, []byte("a"), ""),
+			c19sRequest(tc.Shape, true, [][]byte{data}, reqData, ""),
 			c19sRequest(tc.Shape, false, nil, []byte("b"), ""),
 		}
 	case "server-stream":
-		msgs = []proto.Message{c19sRequest(tc.Shape, true, [][]byte{data, []byte("second")}, nil, "")}
+		msgs = []proto.Message{c19sRequest(tc.Shape, true, [][]byte{data, []byte("second")}, reqData, "")}
 	default:
 		msgs = []proto.Message{
-			c19sRequest(tc.Shape, true, [][]byte{data, []byte("second")}, []byte("a"), ""),
+			c19sRequest(tc.Shape, true, [][]byte{data, []byte("second")}, reqData, ""),
 			c19sRequest(tc.Shape, false, nil, []byte("b"), ""),
 		}
 	}
@@ -850,12 +858,12 @@ func c19sEnumerate(thorough bool, visit func(tc c19sCase) bool) {
 	serverShapes := []string{"unary", "client-stream", "bidi-half", "bidi-full"}
 	clientShapes := []string{"unary", "client-stream", "server-stream", "bidi-half", "bidi-full"}
 	serverLimits := []int{1024, 200}
-	clientSizes := []int{1500, 64}
+	clientSizes := []int{4000, 64}
 	if thorough {
 		serverShapes = append(serverShapes, "idempotent-unary")
 		clientShapes = append(clientShapes, "idempotent-unary")
 		serverLimits = []int{1024, 200, 128, 16384, 200 * 1024}
-		clientSizes = []int{1500, 64, 16384, 210 * 1024}
+		clientSizes = []int{4000, 64, 16384, 210 * 1024}
 	}
 	for _, side := range []string{"server", "client"} {
 		shapes, limits := serverShapes, serverLimits
@@ -908,7 +916,7 @@ func TestVerifC19Sharp(t *testing.T) {
 		"to the real server with that limit; side=client: the limit of the real client is (encoded size of the largest response) - k; every tuple is distinct; " +
 		"non-trivial = every case (each one sits on the boundary: |k| <= 1)"
 
-	env := &c19sEnv{servers: map[string]*c19sServer{}, client: c19sStartClient(0)}
+	env := &c19sEnv{servers: map[string]*c19sServer{}, client: c19sStartClient()}
 	defer env.shutdown()
 
 	// judge runs a case; a would-be violation must reproduce twice more.
@@ -921,7 +929,10 @@ func TestVerifC19Sharp(t *testing.T) {
 		if verbose {
 			fmt.Printf("case %s\n  outcome=%s key=%q\n  %s\n", tc, verdict.Outcome, verdict.Key, verdict.Detail)
 		}
-		if verdict.Key != "" {
+		if verdict.Key != "" && verdict.Outcome == "DEADLOCK" {
+			// established structurally (wait-for cycle), no need to repeat
+			r.Violate(verdict.Key, verdict.Detail, tc)
+		} else if verdict.Key != "" {
 			for i := 0; i < 2; i++ {
 				again, err := c19sRun(env, tc)
 				if err != nil || again.Key != verdict.Key {
